@@ -47,7 +47,9 @@ def run_rechunk_case(case):
         else:
             obj = xr.DataArray(arr, dims=("b", "x"), name="v")
             if case["flavour"] == "dataset":
-                obj = xr.Dataset({"v": obj, "w": obj * 2, "s": ("b", np.arange(2))})
+                # chunked variables before and after an in-memory one (and one without the dimension): every chunked variable
+                # with the dimension must be rechunked, whatever the order of the data variables
+                obj = xr.Dataset({"u": obj + 1, "m": (("b", "x"), base.copy()), "v": obj, "w": obj * 2, "s": ("b", np.arange(2))})
             lab = xr.DataArray(labels, dims="x")
             before = obj.copy(deep=True)
             if case["kind"] == "blockwise":
@@ -59,6 +61,14 @@ def run_rechunk_case(case):
             same_arg = (obj["v"] if case["flavour"] == "dataset" else obj).chunks == (before["v"] if case["flavour"] == "dataset" else before).chunks
             out["arg_untouched"] = bool(same_arg)
         out["new"] = [int(c) for c in newarr.chunks[-1]]
+        if case["flavour"] == "dataset":
+            others = {k: [int(c) for c in new[k].data.chunks[-1]] for k in ("u", "w")}
+            if any(v != out["new"] for v in others.values()):
+                out.update(exc="DatasetVariablesRechunkedDifferently", msg=f"v: {out['new']} others: {others}")
+                return out
+            if hasattr(new["m"].data, "dask") or not np.array_equal(new["m"].values, base):
+                out.update(exc="InMemoryVariableChanged", msg="the in-memory variable of the Dataset did not pass through unchanged")
+                return out
         vals_same = bool(np.array_equal(np.asarray(newarr), base))
         out["data_ok"] = bool(vals_same and newarr.shape == base.shape and newarr.dtype == base.dtype and newarr.chunks[0] == (1, 1)
                               and out.get("arg_untouched", True))
